@@ -3,6 +3,7 @@
   on the fuel over the functions of the mutual block.
 -/
 import Pongo.Lemmas.CleanFilters
+import Pongo.Lemmas.ParseDocAll
 
 namespace Pongo
 
@@ -902,7 +903,7 @@ theorem exprOK_getD {args : List Expr} (h : ∀ a ∈ args, ExprOK a) (j : Nat) 
   | none => exact exprOK_default
   | some a => exact h a (List.mem_of_getElem? hj)
 
-theorem execNode_succ {n : Nat} (ih : AllSat T cfg g L n) (nd : Node) (hn : NodeOK L nd) :
+theorem execNode_succ (hS : SetupOK T cfg L) {n : Nat} (ih : AllSat T cfg g L n) (nd : Node) (hn : NodeOK L nd) :
     Sat L (fun _ => True) (execNode T cfg g (n + 1) nd) := by
   cases hn with
   | html val tl tr a b o h =>
@@ -1042,6 +1043,33 @@ theorem execNode_succ {n : Nat} (ih : AllSat T cfg g L n) (nd : Node) (hn : Node
     split
     · exact envOK_nil
     · exact envOK_update hfr.2.1 hfr.1
+  | tagIncludeLazy e ie ref only pairs he hp =>
+    rw [execNode]
+    case x_3 => intro h; cases h
+    simp only []
+    refine sat_bind sat_cur fun fr hfr => ?_
+    refine sat_bind (ih.evalPairs _ hp) fun pvs hpvs => ?_
+    have hictx : EnvOK L (pvs.foldl (fun (e : Env) kv => e.set kv.1 kv.2) (if only then [] else (Env.update fr.pub fr.priv))) := by
+      refine envOK_foldl_set hpvs ?_
+      split
+      · exact envOK_nil
+      · exact envOK_update hfr.2.1 hfr.1
+    refine sat_bind (ih.eval _ he) fun fname _ => ?_
+    split
+    · exact sat_xerr _ _
+    · refine sat_bind sat_get fun st hst => ?_
+      split
+      · rename_i ti cs hff
+        -- the template is compiled now, from what the loaders hold: it is opt-out-free like the rest
+        have hw := (allDoc hS n).fromFile st.cs _ hst.hworld _ hff
+        refine sat_bind (sat_modify fun s hs => ⟨hs.hout, hs.hframes, hw, hs.hchanged⟩) fun _ _ => ?_
+        exact ih.executeTpl _ _ hictx
+      · split
+        · refine sat_bind (sat_modify fun s hs => ⟨hs.hout, hs.hframes, ⟨hs.hworld.1, hs.hworld.2⟩, hs.hchanged⟩) fun _ _ => ?_
+          split
+          · exact sat_pure trivial
+          · exact sat_xerr _ _
+        · repeat (first | exact sat_xerr _ _ | split)
   | tagIncludeEmpty only pairs => rw [execNode]; exact sat_pure trivial
   | tagLorem c m r p => rw [execNode]; exact sat_xerr _ _
   | tagMacro idx =>
@@ -1090,7 +1118,7 @@ theorem execNode_succ {n : Nat} (ih : AllSat T cfg g L n) (nd : Node) (hn : Node
     have hc := frameOK_child hfr
     exact ⟨envOK_foldl_set hpvs hc.1, hc.2.1, hc.2.2⟩
 
-theorem allSat_succ (hg : EnvOK L g) (n : Nat) (ih : AllSat T cfg g L n) : AllSat T cfg g L (n + 1) where
+theorem allSat_succ (hS : SetupOK T cfg L) (hg : EnvOK L g) (n : Nat) (ih : AllSat T cfg g L n) : AllSat T cfg g L (n + 1) where
   eval := eval_succ ih
   evalArrayItems := evalArrayItems_succ ih
   evalList := evalList_succ ih
@@ -1107,15 +1135,15 @@ theorem allSat_succ (hg : EnvOK L g) (n : Nat) (ih : AllSat T cfg g L n) : AllSa
   executeTpl := executeTpl_succ ih
   executeTplUnbuffered := executeTplUnbuffered_succ hg ih
   execNodes := execNodes_succ ih
-  execNode := execNode_succ ih
+  execNode := execNode_succ hS ih
   ifChain := ifChain_succ ih
   forLoop := forLoop_succ ih
 
 /-- **The autoescape invariant holds for every fuel, node, expression and state.** -/
-theorem allSat (hg : EnvOK L g) (fuel : Nat) : AllSat T cfg g L fuel := by
+theorem allSat (hS : SetupOK T cfg L) (hg : EnvOK L g) (fuel : Nat) : AllSat T cfg g L fuel := by
   induction fuel with
   | zero => exact allSat_zero T cfg g
-  | succ n ih => exact allSat_succ hg n ih
+  | succ n ih => exact allSat_succ hS hg n ih
 
 end
 
